@@ -57,6 +57,8 @@ def ddmin(items, test, budget):
 
 def minimise_c16(ctx, spec, res, viol, max_runs=300, max_s=90.0):
     """Returns (spec', res', viol') with a replay plan."""
+    if spec.get('gran') == 'instr':
+        max_s *= 3                       # instruction-granularity nodes are ~10x slower
     budget = Budget(max_runs, max_s)
     kind = viol['kind']
 
@@ -74,11 +76,13 @@ def minimise_c16(ctx, spec, res, viol, max_runs=300, max_s=90.0):
         return s2
 
     cur = with_segments(spec, res['segments'])
+    cur['log_limit'] = 200000            # the replay records every switch, for phase S
     got = attempt(cur)
     if got is None:
         # cannot happen for a deterministic simulator; keep the original
         return spec, res, viol
     cur_res, cur_v = got
+    cur.pop('log_limit', None)
 
     def research(s):
         """Look for the same failure again on a structurally smaller workload."""
@@ -113,17 +117,31 @@ def minimise_c16(ctx, spec, res, viol, max_runs=300, max_s=90.0):
     if len(cur['plan']['segments']) > 3 and budget.ok():
         T = len(cur['threads'])
         seen = set()
-        cands = []
-        for sw in res.get('switches', []):
+        hot_c, cold_c = [], []
+        per_loc = {}
+        hot = getattr(ctx, 'hot', set())
+        for sw in cur_res.get('switches', []):
             if len(sw) >= 5 and sw[3] not in (None, 'lock') and (sw[1], sw[4]) not in seen:
                 seen.add((sw[1], sw[4]))
-                cands.append(sw)
-        # spread the attempts over the whole trace
-        if len(cands) > 60:
-            step = len(cands) / 60.0
-            cands = [cands[int(i * step)] for i in range(60)]
+                if sw[3] in hot:
+                    lk = (sw[1], sw[3], sw[5] if len(sw) > 5 else None)      # thread, line, position within the line
+                    n = per_loc.get(lk, 0)
+                    per_loc[lk] = n + 1
+                    if n < 3:
+                        hot_c.append(sw)
+                else:
+                    cold_c.append(sw)
+        # switches at lines that touch process-global state first (a few per line), then
+        # the others spread over the whole trace
+        if len(hot_c) > 110:
+            step = len(hot_c) / 110.0
+            hot_c = [hot_c[int(i * step)] for i in range(110)]
+        if len(cold_c) > 40:
+            step = len(cold_c) / 40.0
+            cold_c = [cold_c[int(i * step)] for i in range(40)]
+        cands = hot_c + cold_c
         for sw in cands:
-            if not budget.ok() or budget.runs > max_runs * 0.4:
+            if not budget.ok() or budget.runs > max_runs * 0.35:
                 break
             a, to = sw[1], sw[2]
             s2 = copy.deepcopy(cur)
@@ -133,6 +151,39 @@ def minimise_c16(ctx, spec, res, viol, max_runs=300, max_s=90.0):
                 s3 = with_segments(s2, got[0]['segments'])
                 got3 = attempt(s3)
                 if got3:
+                    cur, (cur_res, cur_v) = s3, got3
+                    break
+
+    # --- phase S2: two cuts (A runs to a, B runs to b, A completes, B completes) ----
+    if len(cur['plan']['segments']) > 4 and budget.ok():
+        sws = [sw for sw in cur_res.get('switches', []) if len(sw) >= 5 and sw[3] not in (None, 'lock')]
+        hot = getattr(ctx, 'hot', set())
+        pairs = []
+        tpos = {}
+        for i, sw in enumerate(sws):
+            tpos[sw[1]] = sw[4]
+            if i + 1 < len(sws):
+                nx = sws[i + 1]
+                if nx[1] == sw[2] and nx[2] == sw[1] and (sw[3] in hot or nx[3] in hot):
+                    pairs.append((sw[1], sw[4], nx[1], nx[4]))
+        if len(pairs) > 60:
+            step = len(pairs) / 60.0
+            pairs = [pairs[int(i * step)] for i in range(60)]
+        for a, ka, b, kb in pairs:
+            if not budget.ok() or budget.runs > max_runs * 0.5:
+                break
+            segs = []
+            if ka > 0:
+                segs.append([a, ka])
+            if kb > 0:
+                segs.append([b, kb])
+            segs.append([a, 10 ** 9])
+            s2 = with_segments(cur, segs)
+            got = attempt(s2)
+            if got:
+                s3 = with_segments(s2, got[0]['segments'])
+                got3 = attempt(s3)
+                if got3 and len(s3['plan']['segments']) < len(cur['plan']['segments']):
                     cur, (cur_res, cur_v) = s3, got3
                     break
 
@@ -215,6 +266,46 @@ def minimise_c16(ctx, spec, res, viol, max_runs=300, max_s=90.0):
                         found = (s3, got3)
             if found or budget.runs > max_runs * 0.6:
                 break
+        if found:
+            cur, (cur_res, cur_v) = found
+
+    # --- phase A3: single preemption placed inside lines that touch process-global state ----
+    if len(cur['plan']['segments']) > 3 and budget.ok():
+        import random as _random
+        rr = _random.Random(len(cur['plan']['segments']))
+        T = len(cur['threads'])
+        gran = cur.get('gran', 'line')
+        hot = getattr(ctx, 'hot', set())
+        found = None
+        strata = []
+        for a in range(T):
+            off = 0
+            byk = {}
+            for c in cur['threads'][a]:
+                o = ctx.oracle(c, want_trace=True, gran=gran)
+                tr = o['trace'] or []
+                run = 0
+                for j, l in enumerate(tr):
+                    run = run + 1 if (j > 0 and tr[j - 1] == l) else 0
+                    if l in hot:
+                        byk.setdefault((l, run), []).append(off + j)
+                        byk.setdefault((l, run, '+'), []).append(off + j + 1)
+                off += o['steps']
+            for key, ks in byk.items():
+                strata.append((a, ks))
+        rr.shuffle(strata)
+        for a, ks in strata:
+            if not budget.ok() or budget.runs > max_runs * 0.85 or found:
+                break
+            k = rr.choice(ks)
+            s2 = copy.deepcopy(cur)
+            s2['plan'] = {'plan': 'one', 'a': a, 'k': k, 'order': [x for x in range(T) if x != a]}
+            got = attempt(s2)
+            if got:
+                s3 = with_segments(s2, got[0]['segments'])
+                got3 = attempt(s3)
+                if got3:
+                    found = (s3, got3)
         if found:
             cur, (cur_res, cur_v) = found
 
